@@ -18,3 +18,19 @@ theorem logger_methods_tie : loggerForwards.map (·.1) =
      "SetNSel", "StartPath"] := by decide
 
 end Ivg.Gen.Tie
+
+namespace Ivg.Gen.Tie
+open Ivg.Gen.Facts
+
+/-- `raster.RasterizerLogger` (raster/logger.go): each of its ten methods makes exactly one call on the wrapped
+    Rasterizer — the method of the same name with its own parameters in order, unconditionally — so the values
+    `Pen`/`Size`/`Bounds` report and the calls the rasteriser receives are those of the wrapped one. -/
+def rforwardsItself (e : String × String × List (String × String × String)) : Bool :=
+  e.2.2 == [(e.1, e.2.1, "")]
+
+theorem rasterizer_logger_forwards_tie :
+    rasterizerLoggerForwards.all rforwardsItself = true ∧
+    rasterizerLoggerForwards.map (·.1) =
+      ["Bounds", "ClosePath", "CubeTo", "Draw", "LineTo", "MoveTo", "Pen", "QuadTo", "Reset", "Size"] := by decide
+
+end Ivg.Gen.Tie
